@@ -69,10 +69,25 @@ Definition start_after_gap (nn : nat) (straight : list nat) : option nat :=
   hd_error (filter (fun s => negb (nmem (index_minus nn s 2) straight)) straight).
 Definition apply_rule (nn : nat) (straight : list nat) (re : start_rule * entry) : dres :=
   let (rule, e) := re in
-  match (match rule with StraightFirst => hd_error straight | StartAfterGap => start_after_gap nn straight end) with
-  | Some s => DSub s e
-  | None => DRaise                           (* IndexError *)
+  match rule with
+  | StraightFirst => match hd_error straight with Some s => DSub s e | None => DRaise end     (* IndexError *)
+  | StartAfterGap => match start_after_gap nn straight with Some s => DSub s e | None => DRaise end
+  | StartAfterGapIf ds =>
+      (* if all([col.index_plus(start, d) in straight for d in ds]): subdivide  else: triangulate_column *)
+      match start_after_gap nn straight with
+      | Some s => if forallb (fun d => nmem ((s + d) mod nn) straight) ds then DSub s e else DSub 0 (fan nn)
+      | None => DRaise
+      end
   end.
+Lemma apply_rule_cases nn straight re start e :
+  apply_rule nn straight re = DSub start e -> e = snd re \/ (start = 0 /\ e = fan nn).
+Proof.
+  destruct re as [rule e']. unfold apply_rule. cbn [snd]. destruct rule.
+  - destruct (hd_error straight); [|discriminate]. intro H; inversion H; auto.
+  - destruct (start_after_gap nn straight); [|discriminate]. intro H; inversion H; auto.
+  - destruct (start_after_gap nn straight); [|discriminate].
+    destruct (forallb _ ds); intro H; inversion H; auto.
+Qed.
 Definition decompose_model (nn : nat) (straight : list nat) : dres :=
   if nn <=? 4 then DKeep
   else if nn <=? 8 then
@@ -92,6 +107,12 @@ Definition decompose_model (nn : nat) (straight : list nat) : dres :=
         else DSub 0 (fan nn)
     end
   else DSub 0 (fan nn).
+
+(** is the (7,3) special case guarded by the test that the straight nodes alternate? (read from the AST) *)
+Definition d73_guarded : bool :=
+  existsb (fun x => match x with
+                    | ((nn, ns, None), StartAfterGapIf _, _) => (nn =? 7) && (ns =? 3)
+                    | _ => false end) decompose_table.
 
 (** a decomposition entry, rotated by any start, keeps the parent's boundary unsplit *)
 Definition dtable_boundary_ok (t : dtable) : bool :=
